@@ -21,6 +21,7 @@ import NgVerif.Model.Fault
 import NgVerif.Model.Pipeline
 import NgVerif.Model.Buffers
 import NgVerif.Model.Enc
+import NgVerif.Model.Vtk
 /-
   ngdriver: line protocol. One request per line on stdin (space-separated tokens),
   one reply per line on stdout. Unknown / malformed requests answer `bad-request`.
@@ -110,6 +111,28 @@ def odbRun (ops : List String) : String :=
     let b := Buffers.runAdds Buffers.add ⟨[], 0⟩ h
     s!"{bytesToHex b.file} {b.len}"
   | none => "bad-request"
+
+def vtkRender (ls : List Vtk.Line) : String :=
+  "".intercalate (ls.map fun l => " ".intercalate (l.map fun t => match t with
+    | .word s => s | .num n => toString n | .flt s => s | .text s => s) ++ "\n")
+
+def hexToString (h : String) : Option String :=
+  (hexToBytes h).map fun b => String.ofList (b.map fun c => Char.ofNat c)
+
+def stringToHex (s : String) : String := bytesToHex (s.toList.map fun c => c.toNat)
+
+/-- tokenise a real VTK text file for the recogniser (harness side, not part of the model): the second line
+    is the title; otherwise a token of digits is `num`, one that starts like a number is `flt`, else `word` -/
+def vtkTokenise (text : String) : List Vtk.Line :=
+  let lines := (text.splitOn "\n")
+  let lines := if lines.getLast? == some "" then lines.dropLast else lines
+  lines.mapIdx fun i l =>
+    if i == 1 then [Vtk.Tok.text l] else
+    (l.splitOn " ").map fun t =>
+      if !t.isEmpty && t.all Char.isDigit then Vtk.Tok.num t.toNat!
+      else match t.toList with
+        | c :: _ => if (c.isDigit || c == '-' || c == '+' || c == '.') && t != "#" && i ≥ 5 then Vtk.Tok.flt t else Vtk.Tok.word t
+        | [] => Vtk.Tok.word t
 
 /-- group the ops of one shard by minishard, run + close each, sort by key, assemble -/
 def shardBuild (m s p : Nat) (ops : List (Nat × Bytes)) : String :=
@@ -449,6 +472,22 @@ def handle (toks : List String) : String :=
         showNatList (Scales.chunkSizes ds e L) ++ "/" ++
         showNatList (ds.map fun d => Scales.fac L d))
     | _, _, _ => "bad-request"
+  | ["vtk-write", title, version, pts, tris, attrs] =>
+    -- title/version hex-encoded; pts rows ";" tokens ","; tris rows ";" ints ","; attrs name:k:rows "/"-separated ("-" = none)
+    let rowsOf (t : String) : List (List String) := if t == "-" then [] else (t.splitOn ";").map (·.splitOn ",")
+    let attrL : Option (List Vtk.Attr) := if attrs == "-" then some [] else (attrs.splitOn "/").mapM fun a =>
+      match a.splitOn ":" with
+      | [nm, k, rows] => (parseNat k).map fun k => ⟨nm, k, rowsOf rows⟩
+      | _ => none
+    match hexToString title, hexToString version, attrL, (rowsOf tris).mapM (·.mapM parseNat) with
+    | some ti, some ve, some al, some tl =>
+      let ls := Vtk.write ti ve (rowsOf pts) tl al
+      s!"{stringToHex (vtkRender ls)} {if Vtk.accepts ls then 1 else 0}"
+    | _, _, _, _ => "bad-request"
+  | ["vtk-accepts", file] =>
+    match hexToString file with
+    | some t => if Vtk.accepts (vtkTokenise t) then "1" else "0"
+    | none => "bad-request"
   | ["get-encoder", dt, nc, enc, blk] =>
     -- "-" = key missing; nc as an integer ("x" = not an integer)
     let o (t : String) : Option String := if t == "-" then none else some t
